@@ -26,7 +26,7 @@ CONFIGS["C08"] = dict(
          "of the programs instead start their workers from a function called from main (or two calls deep) while main keeps "
          "declaring locals and the workers call a named function in a loop (sharing only a channel and a WaitGroup); "
          "25% of programs drop the Ego-level locking (racy by design). Knobs per run: optimizer on/off, symbol allocation "
-         "size, preemption probability, free-step budget. non-trivial = >=2 tasks runnable at some decision; distinct = "
+         "size, preemption probability, free-step budget, scheduling point after every mutex release (2 runs in 3). non-trivial = >=2 tasks runnable at some decision; distinct = "
          "distinct scheduler decision sequence hash",
     real=["tokenizer, compiler, bytecode VM, symbols, data (channels), runtime/sync, builtins, fmt"],
     stubbed=["sync: scheduling shim", "Ego channel send/receive/close in data/channel.go: rewritten to scheduled non-blocking "
